@@ -31,10 +31,11 @@ ASSUMPTIONS = ["the reference interpreter certifies 'grammatical, ill-formed for
                "column may be 0- or 1-based (the code base uses both conventions)"]
 
 UNDEF_SLOTS = ["positional", "keyword", "list", "mode", "array-index", "indexed-name", "loop-list", "metadata-option", "scalar-init", "array-element",
-               "in-loop-body", "inside-expression", "after-loop", "far-argument"]
+               "in-loop-body", "inside-expression", "after-loop", "far-argument", "metadata-positional"]
 FAULTS = (["undefined:" + s for s in UNDEF_SLOTS]
           + ["reserved:scalar", "reserved:array"]
-          + ["mode:float-literal", "mode:complex-literal", "mode:float-variable", "mode:str-variable", "mode:computed-float", "mode:float-array-element", "mode:in-loop"]
+          + ["mode:float-literal", "mode:complex-literal", "mode:float-variable", "mode:str-variable", "mode:computed-float", "mode:float-array-element", "mode:in-loop",
+             "mode:in-range-loop"]
           + ["complex:int-scalar-literal", "complex:float-scalar-literal", "complex:float-scalar-computed", "complex:int-scalar-computed",
              "complex:float-array-literal", "complex:float-array-computed", "complex:int-array-computed", "complex:via-variable"]
           + ["complex:float-scalar-zero-imag", "complex:int-array-zero-imag"]
@@ -108,6 +109,12 @@ def inject(rng, g, fault):
             lines.insert(2, "target dev (shots=%s)" % u)
             text = "\n".join(lines) + "\n"
             return text, "undefined", ident, 3, lines[2].index(u + ")")
+        elif slot == "metadata-positional":
+            # positional options are ignored (with a warning) but they are evaluated: an undefined name in one is still an error
+            line_ = rng.choice(["target dev (%s)", "target dev (2*%s, cutoff=10)", "type tdm (%s, temporal_modes=3)", "target dev (1, %s)"]) % u
+            lines.insert(2, line_)
+            text = "\n".join(lines) + "\n"
+            return text, "undefined", ident, 3, lines[2].index(u)
         elif slot == "scalar-init":
             new = "float %s = 1 + %s" % (G.ident(), u)
         elif slot == "array-element":
@@ -143,6 +150,8 @@ def inject(rng, g, fault):
             new = "float array %s =\n    1, 2\nG | %s[0]" % (u, u)
         elif slot == "in-loop":
             new = "for float %s in [1, 2]\n    G | %s" % (u, u)
+        elif slot == "in-range-loop":
+            new = "for float %s in %s\n    H(1) | 0\n    G | %s" % (u, rng.choice(["0:3", "1:2", "2:9:3"]), rng.choice([u, "[0, %s]" % u]))
     elif cls == "complex":
         nm = u
         if slot == "int-scalar-literal":
